@@ -231,8 +231,17 @@ fn exec<S: Crystal>(initial: S, sc: &Scenario) -> Result<RunOut, String> {
             viol.push(Violation::new("stage-panicked", *k as u64, format!("chain op {}: optimise_state panicked: {}", k, msg)));
         }
     }
+    // A shape so small that the cell built by from_group is shorter than the fixed lower bound 0.01
+    // of the length range: the cause is recorded in the signature of what follows from it
+    let tiny = len0 < 0.01;
+    out.count("probe.initial_cell_below_fixed_minimum", tiny as u64);
     for v in viol {
-        out.violate(v);
+        let about_length = v.signature.iter().any(|(k, x)| k == "param" && x == "cell.length") || v.detail.contains("cell.length") || v.detail.contains("cell length");
+        if tiny && about_length && (v.class == "initial-state-invalid" || v.class == "parameter-out-of-range") {
+            out.violate(v.sig("cause", "initial-cell-below-fixed-minimum"));
+        } else {
+            out.violate(v);
+        }
     }
     Ok(out)
 }
@@ -255,7 +264,15 @@ impl Check for C08 {
             Tier::Quick => 500,
             Tier::Thorough => 1000,
         };
-        gen_scenario(rng, false, false, true, 4, max_steps).to_json()
+        let mut sc = gen_scenario(rng, false, false, true, 4, max_steps);
+        if rng.chance(0.01) {
+            // "any shape of well-defined area": a polygon of circumradius ~1e-3
+            let n = rng.range_u64(3, 6) as usize;
+            sc.lj = false;
+            sc.shape = ShapeSpec::Radial((0..n).map(|k| 1e-3 * (1.0 + 0.1 * (k % 2) as f64)).collect());
+            sc.chain.retain(|op| !matches!(op, Op::Special(_)));
+        }
+        sc.to_json()
     }
     fn execute(&self, j: &J) -> Result<RunOut, String> {
         let sc = Scenario::from_json(j)?;
